@@ -259,8 +259,9 @@ class NetStation(_StationBase):
 
     channel_info = "canmon simulated bus"
 
-    def __init__(self, bus, name, via="listener", modifiable=True, fragile=False, send_fail=None):
+    def __init__(self, bus, name, via="listener", modifiable=True, fragile=False, send_fail=None, zero_ts=False):
         super().__init__(bus, name)
+        self.zero_ts = zero_ts          # an interface without time stamps: every received frame is stamped 0.0
         self.network = None
         self.via = via                  # 'listener' -> MessageListener.on_message_received ; 'notify' -> Network.notify ;
                                         # 'notify-reuse' -> Network.notify from one receive buffer that the "driver" overwrites
@@ -331,7 +332,7 @@ class NetStation(_StationBase):
         if net is None:
             return
         if self.via == "listener":
-            msg = can.Message(timestamp=frame.ts, arbitration_id=frame.can_id, is_extended_id=frame.ext,
+            msg = can.Message(timestamp=0.0 if self.zero_ts else frame.ts, arbitration_id=frame.can_id, is_extended_id=frame.ext,
                               is_remote_frame=frame.rtr, data=bytearray(frame.data) if not frame.rtr else None,
                               dlc=frame.dlc if frame.rtr else None, check=False)
             for listener in net.listeners:
